@@ -158,11 +158,18 @@ class ProgGen:
         return self.ref_to(("record", "enum")) or self.prim()
 
     def callback(self):
+        """an inline function type. Equal signatures (same parameter and return types) are meant to recur — in the same
+        namespace and in sibling / enclosing namespaces — under *different* parameter names: the generated type has the
+        same name, the rendered files differ."""
         r = self.r
+        pn = lambda i: r.choice([f"a{i}", f"a{i}", f"x{i}", f"len{i}", f"pct{i}"])
         if self.stress == "anon":
             self.features.add("callback:small-signature-pool")
-            return r.choice(["(a0: i32) -> bool", "()", "(a0: string)"])
-        ps = ", ".join(f"a{i}: {r.choice(['i32', 'string', 'bool', 'f64'])}" for i in range(r.choice([0, 1, 1, 2])))
+            return r.choice([f"({pn(0)}: i32) -> bool", "()", f"({pn(0)}: string)"])
+        if r.random() < 0.35:
+            self.features.add("callback:small-signature-pool")
+            return r.choice([f"({pn(0)}: i32) -> bool", f"({pn(0)}: string)"])
+        ps = ", ".join(f"{pn(i)}: {r.choice(['i32', 'string', 'bool', 'f64'])}" for i in range(r.choice([0, 1, 1, 2])))
         ret = r.choice(["", " -> bool", " -> i32"])
         self.features.add("callback")
         return f"({ps}){ret}"
@@ -229,24 +236,109 @@ class ProgGen:
         return ind + text
 
     def body(self, nmax: int, prefix_ns: tuple = ()) -> str:
-        """declarations spread over namespaces; the same namespace may be opened more than once"""
+        """declarations spread over a namespace *tree*: the same namespace may be opened more than once, blocks are
+        written nested or with dotted names (different component counts at different levels), and declarations may
+        follow an inner block inside the same outer block. Declarations are generated in text order (a reference
+        only names something declared earlier in the text)."""
         r = self.r
-        out = []
         n = r.randrange(1, nmax + 1)
-        namespaces = [(), ()] + [(r.choice(NS_WORDS),) for _ in range(2)] + [(r.choice(NS_WORDS), r.choice(NS_WORDS[:3]))]
+
+        def w(pool=NS_WORDS):
+            """a namespace component; under the conversion / letter-case stress different spellings that identifier
+            styles map to one name (`Net`/`net`/`NET`, `ui_kit`/`ui__kit`/`uiKit`)"""
+            x = r.choice(pool)
+            if (self.case_names or self.stress == "conversion" or (self.stress == "mixed" and r.random() < 0.2)) and r.random() < 0.6:
+                parts = x.split("_")
+                x = r.choice([x.capitalize(), x.upper(), x.replace("_", "__"), parts[0] + "".join(q.capitalize() for q in parts[1:]), x])
+                self.features.add("ns:conversion-variant")
+            return x
+        chain = (w(), w(NS_WORDS[:3]), w(NS_WORDS[2:]))
+        namespaces = [(), ()] + [(w(),) for _ in range(2)] + [(w(), w(NS_WORDS[:3]))] + [chain[:1], chain[:2], chain]
+        if self.case_names or self.stress == "conversion":
+            # few base words, so that spellings of one word meet (with equally named declarations inside: `fresh_name`)
+            namespaces = [(), (w(NS_WORDS[3:5]),), (w(NS_WORDS[3:5]),), (w(NS_WORDS[3:5]),), (w(NS_WORDS[3:5]), w(NS_WORDS[:2])), (w(NS_WORDS[3:5]), w(NS_WORDS[:2]))]
         if self.stress in ("same-name", "anon"):
-            namespaces = [(NS_WORDS[0],), (NS_WORDS[1],), (NS_WORDS[0], NS_WORDS[1]), ()]
-        for _ in range(n):
-            ns = prefix_ns + r.choice(namespaces)
-            if ns:
-                self.features.add(f"ns-depth:{len(ns)}")
-                inner = self.decl(ns, "  " * len(ns))
-                head = "".join(f"{'  ' * i}namespace {c} {{\n" for i, c in enumerate(ns))
-                tail = "".join(f"\n{'  ' * i}}}" for i in reversed(range(len(ns))))
-                out.append(head + inner + tail)
+            namespaces = [(NS_WORDS[0],), (NS_WORDS[1],), (NS_WORDS[0], NS_WORDS[1]), (), (NS_WORDS[0], NS_WORDS[1], NS_WORDS[2]),
+                          (NS_WORDS[0], NS_WORDS[1])]
+        layout = r.choice(["chains", "tree", "tree", "deep", "deep"])
+        if layout == "deep":
+            # the declarations of a namespace chain (>= 2 components) share one tree whose top block is dotted; those of
+            # the enclosing namespace and the top level stand in blocks of their own
+            if self.stress in ("same-name", "anon"):
+                chain = tuple(NS_WORDS[:3])
+            namespaces = [chain[:2], chain[:2], chain, chain, chain[:1], chain[:1], ()]
+        slots = [prefix_ns + r.choice(namespaces) for _ in range(n)]
+        if layout == "chains":
+            # every declaration in a block chain of its own, one block per component
+            out = []
+            for ns in slots:
+                if ns:
+                    self.features.add(f"ns-depth:{len(ns)}")
+                    inner = self.decl(ns, "  " * len(ns))
+                    head = "".join(f"{'  ' * i}namespace {c} {{\n" for i, c in enumerate(ns))
+                    tail = "".join(f"\n{'  ' * i}}}" for i in reversed(range(len(ns))))
+                    out.append(head + inner + tail)
+                else:
+                    out.append(self.decl((), ""))
+            return "\n".join(out) + "\n"
+        self.features.add("ns-layout:tree")
+        # groups of declarations share one top-level tree
+        groups: list[list[tuple]] = []
+        if layout == "deep":
+            deep = [ns for ns in slots if len(ns) >= 2]
+            groups = [[ns] for ns in slots if len(ns) < 2] + ([deep] if deep else [])
+            r.shuffle(groups)
+            slots = []
+        for ns in slots:
+            if groups and r.random() < 0.6:
+                r.choice(groups).append(ns)
             else:
-                out.append(self.decl((), ""))
-        return "\n".join(out) + "\n"
+                groups.append([ns])
+        lines: list[str] = []
+        for g in groups:
+            root = {"n": 0, "kids": {}, "order": []}
+            for ns in g:
+                node = root
+                for part in ns:
+                    if part not in node["kids"]:
+                        node["kids"][part] = {"n": 0, "kids": {}, "order": []}
+                        node["order"].append(part)
+                    node = node["kids"][part]
+                node["n"] += 1
+            self._emit(root, (), 0, lines)
+        return "\n".join(lines) + "\n"
+
+    def _emit(self, node, ns: tuple, depth: int, lines: list[str], dotted: bool = False):
+        r = self.r
+        items = [("d", None)] * node["n"] + [("k", k) for k in node["order"]]
+        r.shuffle(items)
+        if r.random() < 0.6:
+            items.sort(key=lambda it: 0 if it[0] == "k" else 1)     # make it likely that something follows an inner block
+        ind = "  " * depth
+        after_block = False
+        for kind, k in items:
+            if kind == "d":
+                if ns:
+                    self.features.add(f"ns-depth:{len(ns)}")
+                if after_block:
+                    self.features.add("ns-layout:decl-after-block" + ("-in-dotted" if dotted else ""))
+                lines.append(self.decl(ns, ind))
+                continue
+            name, child, path = [k], node["kids"][k], ns + (k,)
+            # a chain of blocks that hold nothing but the next block may be written as one dotted name
+            while not child["n"] and len(child["order"]) == 1 and r.random() < 0.65:
+                nxt = child["order"][0]
+                name.append(nxt)
+                path += (nxt,)
+                child = child["kids"][nxt]
+            if len(name) > 1:
+                self.features.add("ns-layout:dotted")
+                if child["kids"]:
+                    self.features.add("ns-layout:block-inside-dotted")
+            lines.append(f"{ind}namespace {'.'.join(name)} {{")
+            self._emit(child, path, depth + 1, lines, dotted=len(name) > 1)
+            lines.append(f"{ind}}}")
+            after_block = True
 
     def program(self):
         r = self.r
@@ -297,6 +389,71 @@ class ProgGen:
             return target[len("inc/"):]                       # found through include_dirs: ["inc"] (relative to cwd = sandbox root)
         d = os.path.dirname(importer)
         return os.path.relpath(target, d)
+
+
+def namespace_scopes(text: str):
+    """The namespace a source position lies in, read off the text alone (block structure only; independent of the
+    parser under test): returns `at(line, col) -> tuple of components` (line 1-based, column 0-based, as the
+    parser reports positions). `namespace a.b {` opens a block with the components a, b; every other `{` opens a
+    block without components; `#` comments and "strings" are skipped."""
+    import bisect
+    import re
+    events = [((0, 0), ())]        # (position of the character after the brace) -> namespace from there on
+    stack: list[int] = []
+    cur: list[str] = []
+    line, col, i, n = 1, 0, 0, len(text)
+    pending = None                 # components of a `namespace x.y` header waiting for its `{`
+    word = re.compile(r"[A-Za-z_][A-Za-z0-9_.]*")
+
+    def adv(k):
+        nonlocal line, col, i
+        for ch in text[i:i + k]:
+            if ch == "\n":
+                line, col = line + 1, 0
+            else:
+                col += 1
+        i += k
+    while i < n:
+        ch = text[i]
+        if ch == "#":
+            j = text.find("\n", i)
+            adv((j if j >= 0 else n) - i)
+        elif ch == '"':
+            j = text.find('"', i + 1)
+            adv((j + 1 if j >= 0 else n) - i)
+        elif ch == "{":
+            comps = pending or []
+            pending = None
+            stack.append(len(comps))
+            cur += comps
+            adv(1)
+            events.append(((line, col), tuple(cur)))
+        elif ch == "}":
+            if stack:
+                k = stack.pop()
+                if k:
+                    del cur[-k:]
+            adv(1)
+            events.append(((line, col), tuple(cur)))
+        else:
+            m = word.match(text, i)
+            if m:
+                if m.group(0) == "namespace":
+                    adv(m.end() - i)
+                    m2 = re.compile(r"\s*([A-Za-z_][A-Za-z0-9_.]*)").match(text, i)
+                    if m2:
+                        pending = [c for c in m2.group(1).split(".") if c]
+                        adv(m2.end() - i)
+                else:
+                    adv(m.end() - i)
+            else:
+                adv(1)
+    keys = [e[0] for e in events]
+
+    def at(l: int, c: int) -> tuple:
+        k = bisect.bisect_right(keys, (l, c)) - 1
+        return events[max(k, 0)][1]
+    return at
 
 
 def reachable(root: str, imports: dict) -> list[str]:
